@@ -280,6 +280,7 @@ DEFAULT_OPTS = dict(
     scaling=False, safe_indices=False, cycles=False, auto_ivc=True, shuffle_order=False,
     implicit=False, array_scaling=False, resp_chain=False, prefix_names=False, dyn_sibling=False,
     auto_ivc_p=0.15, solver_options_api=False, partial_auto_order=False, scalar0d=False,
+    shared_promotes=False,
 )
 
 
@@ -349,6 +350,58 @@ def gen_md(rng, **kw):
                 conns.append({'tgt': [ci, iname], 'src': None, 'chain': [], 'style': 'auto_ivc',
                               'val': [rat(F(rng.randint(-16, 16), rng.choice([1, 2, 4])))
                                       for _ in range(size)]})
+            elif o['shared_promotes'] and j > 0 and conns and conns[-1]['tgt'][0] == ci and \
+                    conns[-1]['src'] is not None and 'share' not in conns[-1] and rng.random() < 0.5:
+                # this input and the previous one are promoted by ONE promotes() call with one
+                # src_indices object, but read sources of different size: a flat index with negative
+                # entries valid for both
+                prev = conns[-1]
+                psod = [x for x in c['ins'] if x['name'] == prev['tgt'][1]]
+                psrc = [od_ for (ci_, od_) in outs if ci_ == prev['src'][0] and od_['name'] == prev['src'][1]][0]
+                sci, sod = rng.choice(outs)
+                m = min(int(np.prod(psrc['shape'])), int(np.prod(sod['shape'])))
+                # index arrays only: a slice shared between sources of different size is rejected by
+                # OpenMDAO at setup (the shared Indexer keeps the first source's shape)
+                spec = {'t': 'arr', 'v': [rng.randrange(-m, m) for _ in range(rng.randint(1, 3))]} \
+                    if m >= 1 else None
+                if spec is None or len(psrc['shape']) == 0 or len(sod['shape']) == 0:
+                    spec = {'t': 'slice', 'v': [None, None, None]}
+                chain = [{'spec': spec, 'flat': True}]
+                ok = True
+                try:
+                    ppos, pshape = np_positions(psrc['shape'], chain)
+                    pos, fshape = np_positions(sod['shape'], chain)
+                    ok = len(ppos) > 0 and len(pos) > 0 and not (
+                        spec['t'] == 'slice' and spec['v'][0] is None and spec['v'][1] is None
+                        and spec['v'][2] in (None, 1))
+                except Exception:
+                    ok = False
+                if ok and len(psrc['shape']) > 0 and len(sod['shape']) > 0:
+                    if len(pshape) == 0:
+                        pshape = [1]
+                    if len(fshape) == 0:
+                        fshape = [1]
+                    gid = len(conns)
+                    prev['chain'] = [dict(chain[0])]
+                    prev['share'] = gid
+                    psod[0]['shape'] = pshape
+                    # the previous input changed size: rebuild its element list
+                    pj = int(prev['tgt'][1][1:])
+                    in_elems[:] = [(jj, e) for (jj, e) in in_elems if jj != pj] + \
+                        [(pj, e) for e in range(int(np.prod(pshape)))]
+                    in_elems.sort()
+                    units = sod['units']
+                    c['ins'].append({'name': iname, 'shape': fshape, 'units': units})
+                    conns.append({'tgt': [ci, iname], 'src': [sci, sod['name']], 'chain': chain,
+                                  'style': None, 'share': gid})
+                else:
+                    shape = list(sod['shape'])
+                    pos, fshape = np_positions(sod['shape'], [])
+                    if len(fshape) == 0:
+                        fshape = [1]
+                    c['ins'].append({'name': iname, 'shape': fshape, 'units': sod['units']})
+                    conns.append({'tgt': [ci, iname], 'src': [sci, sod['name']], 'chain': [],
+                                  'style': None})
             else:
                 sci, sod = rng.choice(outs)
                 nlev = 1 if not o['chains'] else rng.choice([0, 1, 1, 1, 2, 2, 3])
@@ -649,6 +702,7 @@ def _assign_styles(rng, md):
     `connect` at the root (from the root name of the source to the name of the input at the root).
     """
     used = set()
+    shared_first = {}
     for n, cn in enumerate(md['conns']):
         ci, iname = cn['tgt']
         c = md['comps'][ci]
@@ -673,6 +727,24 @@ def _assign_styles(rng, md):
             cn['promote_levels'] = k
             cn['alias'] = 'p%d_%s' % (n, iname) if k > 0 else None
             cn['level_idx'] = [None] * k
+            continue
+        if 'share' in cn:
+            # both inputs of a shared promotes() call: same number of levels, the single chain entry
+            # on the same promote level, own aliases
+            first = shared_first.get(cn['share'])
+            if first is None:
+                k = rng.randint(1, kmax)
+                lev = rng.randrange(k)
+                shared_first[cn['share']] = (k, lev)
+            else:
+                k, lev = first
+            level_idx = [None] * k
+            level_idx[lev] = 0
+            cn['promote_levels'] = k
+            cn['alias'] = 'p%d_%s' % (n, iname)
+            cn['level_idx'] = level_idx
+            cn['connect_idx'] = None
+            cn['style'] = 'connect'
             continue
         # chain entries: first one may go on the root connect; remaining on promotes levels
         need_prom = max(0, nchain - 1)
@@ -1141,6 +1213,7 @@ def build_problem(md, log=None, cfg=None):
                     break
                 g, _, child = g.rpartition('.')
     # input promotions and connections
+    shared_done = set()
     for cn in md['conns']:
         ci, iname = cn['tgt']
         c = md['comps'][ci]
@@ -1157,7 +1230,18 @@ def build_problem(md, log=None, cfg=None):
                 kw['flat_src_indices'] = bool(cn['chain'][e]['flat'])
                 if cn['src'] is None:
                     pass
-            gobj[g].promotes(child, inputs=[(cur, alias)] if cur != alias else [cur], **kw)
+            partner = None
+            if 'share' in cn and e is not None:
+                partner = [x for x in md['conns'] if x.get('share') == cn['share'] and x is not cn][0]
+            if partner is not None:
+                if ('done', cn['share']) not in shared_done:
+                    shared_done.add(('done', cn['share']))
+                    pcur = partner['tgt'][1] if lev == 0 else partner['alias']
+                    gobj[g].promotes(child, inputs=[(cur, alias) if cur != alias else cur,
+                                                    (pcur, partner['alias'])
+                                                    if pcur != partner['alias'] else pcur], **kw)
+            else:
+                gobj[g].promotes(child, inputs=[(cur, alias)] if cur != alias else [cur], **kw)
             cur = alias
             g, _, child = (g.rpartition('.') if g else ('', '', ''))
             if lev < k - 1 and child == '':
